@@ -4,6 +4,8 @@
 #  on success copies patch.diff, the demonstration and meta.json to /verif/seeded/<Cnn-k>/.  Does not remove the worktree.
 set -u
 ID=$1; WT=/tmp/seed-$ID; OUT=/tmp/seed-$ID-out
+# second argument "wt": the demonstration script takes the worktree path instead of the path of the rsass binary
+if [ "${2:-}" = "wt" ]; then ARG="$WT"; else ARG="$WT/target/debug/rsass"; fi
 cd "$WT" || exit 2
 git diff > /tmp/seed-$ID.actual.diff
 echo "== diffstat"; git diff --stat | tail -3
@@ -11,9 +13,9 @@ echo "== suite with the change"
 cargo nextest run --workspace --no-fail-fast --offline --test-threads ${T:-6} 2>&1 | grep -E "^\s+(FAIL|SIGABRT|SIGSEGV|Summary) |^error" | sort | uniq | tail -8
 cargo build --offline -p rsass-cli 2>&1 | tail -1
 if [ -f "$OUT/demo.sh" ]; then
-  ( cd "$OUT" && bash ./demo.sh "$WT/target/debug/rsass" >/tmp/seed-$ID.demo1.log 2>&1 ); echo "== demo with change: exit $? (want 1)"
+  ( cd "$OUT" && bash ./demo.sh "$ARG" >/tmp/seed-$ID.demo1.log 2>&1 ); echo "== demo with change: exit $? (want 1)"
   git stash -q; cargo build --offline -p rsass-cli 2>&1 | tail -1
-  ( cd "$OUT" && bash ./demo.sh "$WT/target/debug/rsass" >/tmp/seed-$ID.demo0.log 2>&1 ); echo "== demo without change: exit $? (want 0)"
+  ( cd "$OUT" && bash ./demo.sh "$ARG" >/tmp/seed-$ID.demo0.log 2>&1 ); echo "== demo without change: exit $? (want 0)"
   git stash pop -q
 else
   echo "== no demo.sh; files:"; ls "$OUT"
